@@ -83,6 +83,15 @@ def are_joinable(
     if not block1.size:
         return JoinableResult(True, "block1 is empty")
 
+    # A label at the end of block1 would end up at the end of the joined
+    # block, behind block2's bytes.
+    if block2.size and any(
+        sym.at_end for sym in cache.reference_cache.get_references(block1)
+    ):
+        return JoinableResult(
+            False, "block1 has symbols referring to its end"
+        )
+
     alignment_data = _auxdata.alignment.get(module)
     if alignment_data:
         alignment = alignment_data.get(block2, 1)
